@@ -279,6 +279,8 @@ def gen_cases(ctx):
             for prefix in ('', '/sub'):
                 if kind == 'openrpc' and prefix:
                     continue          # OpenRPC documents the root endpoint only (it has no notion of paths)
+                if ctx.quick and prefix and stack not in ('pydantic', 'docstring'):
+                    continue
                 for k in range(1, kmax + 1):
                     for idx in itertools.permutations(core, k):
                         if k == 3 and not (stack in ('pydantic', 'pydantic+docstring') and prefix == ''):
